@@ -123,16 +123,29 @@ Proof.
   constructor; [apply solve_is_fresh_iff; exact H1 | apply IH; assumption].
 Qed.
 
-(* exhaustive over the finite (element, variable) domain: ConstControl is sound exactly on G12a *)
+(* exhaustive over the finite (element, variable) domain: every ConstControl is sound *)
 Definition sound_table_ok : bool :=
-  forallb (fun ev => Bool.eqb (sound (CConst false (fst ev) (snd ev))) (G12a (fst ev) (snd ev))) domain.
+  forallb (fun ev => sound (CConst false (fst ev) (snd ev))) domain.
 Lemma sound_table_check : sound_table_ok = true.
 Proof. vm_compute. reflexivity. Qed.
-Lemma const_sound_iff e v : In (e, v) domain -> (sound (CConst false e v) = true <-> G12a e v = true).
+Lemma const_sound_all u e v : In (e, v) domain -> sound (CConst u e v) = true.
 Proof.
-  intros Hin. pose proof sound_table_check as H. unfold sound_table_ok in H. rewrite forallb_forall in H.
+  intros Hin. destruct u; [reflexivity|].
+  pose proof sound_table_check as H. unfold sound_table_ok in H. rewrite forallb_forall in H.
+  exact (H _ Hin).
+Qed.
+(* the rule before the repair was sound exactly on G12a *)
+Definition sound_table_old_ok : bool :=
+  forallb (fun ev => Bool.eqb (sound_old (CConst false (fst ev) (snd ev))) (G12a (fst ev) (snd ev))) domain.
+Lemma sound_table_old_check : sound_table_old_ok = true.
+Proof. vm_compute. reflexivity. Qed.
+Lemma const_sound_old_iff e v : In (e, v) domain -> (sound_old (CConst false e v) = true <-> G12a e v = true).
+Proof.
+  intros Hin. pose proof sound_table_old_check as H. unfold sound_table_old_ok in H. rewrite forallb_forall in H.
   specialize (H _ Hin). cbn [fst snd] in H. apply eqb_prop in H. rewrite H. tauto.
 Qed.
+Lemma recycle_old_refuted : sound_old (CConst false "line" "length_km") = false /\ In ("line", "length_km") domain.
+Proof. split; [vm_compute; reflexivity|]. vm_compute. tauto. Qed.
 (* with recycle=False given by the user, and for tap controllers and other classes, every pair is sound *)
 Lemma user_off_sound e v : sound (CConst true e v) = true.
 Proof. reflexivity. Qed.
@@ -149,11 +162,22 @@ Proof.
   - cbn in E. rewrite orb_false_r in E. apply String.eqb_eq in E. subst. vm_compute. reflexivity.
 Qed.
 
-Lemma recycle_sound_refuted :
-  exists cs n, ~ Forall (fun fr' => solve_is_fresh fr' = true) (run_steps n cs false all_fresh).
+(* every controller the model knows is sound when its ConstControl pairs come from the domain *)
+Definition in_domain (c : ctrl) : Prop :=
+  match c with CConst _ e v => In (e, v) domain | _ => True end.
+Lemma ctrl_sound c : in_domain c -> sound c = true.
 Proof.
-  exists [CConst false "line" "length_km"], 2%nat. intros H.
-  inversion H as [|? ? _ H2]. inversion H2 as [|? ? H3 _]. vm_compute in H3. discriminate.
+  destruct c as [u e v|u e|e v]; cbn [in_domain]; intros H.
+  - apply const_sound_all. exact H.
+  - apply tap_sound.
+  - reflexivity.
+Qed.
+Lemma step_equals_fresh_full n cs stored fr :
+  Forall in_domain cs -> fresh fr ->
+  Forall (fun fr' => solve_is_fresh fr' = true) (run_steps n cs stored fr).
+Proof.
+  intros H Hf. apply step_equals_fresh; [|exact Hf].
+  rewrite Forall_forall in *. intros c Hc. apply ctrl_sound. apply H. exact Hc.
 Qed.
 
 (* ================================================================ batch reading *)
@@ -166,13 +190,13 @@ Qed.
 
 Definition in_tables (b : list (string * string)) : Prop := forall tv, In tv b -> In (fst tv) batch_tables.
 
-Lemma eligible_tables dc ft l : forall b, eligible dc ft l = Some b -> in_tables b.
+Lemma eligible_old_tables dc ft l : forall b, eligible_old dc ft l = Some b -> in_tables b.
 Proof.
   destruct dc; [destruct l; discriminate|].
-  induction l as [|o l IH]; intros b H; cbn [eligible] in H.
+  induction l as [|o l IH]; intros b H; cbn [eligible_old] in H.
   - inversion H. intros tv [].
   - destruct (negb (mems (l_table o) batch_tables) || ft || l_long o) eqn:E; [discriminate|].
-    destruct (eligible false ft l) as [r|] eqn:E2; [|discriminate]. inversion H. subst.
+    destruct (eligible_old false ft l) as [r|] eqn:E2; [|discriminate]. inversion H. subst.
     apply orb_false_iff in E. destruct E as [E _]. apply orb_false_iff in E. destruct E as [E _].
     apply negb_false_iff in E. apply mems_In in E.
     intros tv [<-|Hin]; [exact E | apply (IH r eq_refl); exact Hin].
@@ -215,14 +239,14 @@ Proof.
 Qed.
 
 Lemma batch_unfold t v b c :
-  batch ((t, v) :: b) c = match next t c with
+  batch_old ((t, v) :: b) c = match next t c with
                           | None => Some ValueError
-                          | Some c' => if mems v (keys t) then batch b c' else Some KeyError
+                          | Some c' => if mems v (keys t) then batch_old b c' else Some KeyError
                           end.
 Proof. reflexivity. Qed.
 
 Lemma batch_iff b : forall c, in_tables b ->
-  (batch b c = None <-> keys_ok b = true /\ nodupb (once_tables b) = true /\ disjointb (once_tables b) c = true).
+  (batch_old b c = None <-> keys_ok b = true /\ nodupb (once_tables b) = true /\ disjointb (once_tables b) c = true).
 Proof.
   induction b as [|[t v] b IH]; intros c Ht.
   - cbn. tauto.
@@ -249,37 +273,54 @@ Lemma disjointb_nil l : disjointb l [] = true.
 Proof. unfold disjointb. apply forallb_forall. intros; reflexivity. Qed.
 
 (* every eligible request list: run_timeseries records everything  <->  G12b *)
-Lemma writer_total_iff dc ft l b :
-  eligible dc ft l = Some b -> (records_all dc ft l <-> G12b b = true).
+Lemma writer_old_total_iff dc ft l b :
+  eligible_old dc ft l = Some b -> (records_all_old dc ft l <-> G12b b = true).
 Proof.
-  intros E. unfold records_all, writer. rewrite E.
-  pose proof (eligible_tables _ _ _ _ E) as Ht.
+  intros E. unfold records_all_old, writer_old. rewrite E.
+  pose proof (eligible_old_tables _ _ _ _ E) as Ht.
   pose proof (batch_iff b [] Ht) as H. rewrite disjointb_nil in H.
   unfold G12b. rewrite andb_true_iff.
   destruct b as [|tv b']; [cbn; tauto|].
-  destruct (batch (tv :: b') []) as [e|] eqn:Eb.
+  destruct (batch_old (tv :: b') []) as [e|] eqn:Eb.
   - split; [intros [] |]. intros [X1 X2].
     assert (Z : Some e = None) by (apply H; repeat split; assumption). discriminate.
   - split; [|intros _; exact I]. intros _.
     assert (Y : @None berr = None) by reflexivity. apply H in Y. destruct Y as (Y1 & Y2 & _). split; assumption.
 Qed.
 
-Lemma not_eligible_records dc ft l : eligible dc ft l = None -> records_all dc ft l.
-Proof. intros E. unfold records_all, writer. rewrite E. exact I. Qed.
-
-Lemma batch_reader_refuted_key :
-  exists l, eligible false false l <> None /\ ~ records_all false false l.
+Lemma batch_old_refuted_key :
+  exists l, eligible_old false false l <> None /\ ~ records_all_old false false l.
 Proof.
   exists [{| l_table := "res_line"; l_var := "p_from_mw"; l_long := false |}]. split; [vm_compute; discriminate|].
   vm_compute. tauto.
 Qed.
-Lemma batch_reader_refuted_twice :
-  exists l, eligible false false l <> None /\
-            (forall o, In o l -> mems (l_var o) (keys (l_table o)) = true) /\ ~ records_all false false l.
+Lemma batch_old_refuted_twice :
+  exists l, eligible_old false false l <> None /\
+            (forall o, In o l -> mems (l_var o) (keys (l_table o)) = true) /\ ~ records_all_old false false l.
 Proof.
   exists [{| l_table := "res_bus"; l_var := "vm_pu"; l_long := false |};
           {| l_table := "res_bus"; l_var := "va_degree"; l_long := false |}].
   split; [vm_compute; discriminate|]. split.
   - intros o [<-|[<-|[]]]; reflexivity.
   - vm_compute. tauto.
+Qed.
+
+(* ---- repaired rule: whatever is admitted to batch reading is read without an error *)
+Lemma eligible_batch_ok dc ft l : forall b, eligible dc ft l = Some b -> batch b = None.
+Proof.
+  destruct dc; [destruct l; discriminate|].
+  induction l as [|o l IH]; intros b H; cbn [eligible] in H.
+  - inversion H. reflexivity.
+  - destruct (negb (mems (l_table o) batch_tables) || negb (mems (l_var o) (keys (l_table o))) || ft || l_long o) eqn:E; [discriminate|].
+    destruct (eligible false ft l) as [r|] eqn:E2; [|discriminate]. inversion H. subst.
+    apply orb_false_iff in E. destruct E as [E _]. apply orb_false_iff in E. destruct E as [E _].
+    apply orb_false_iff in E. destruct E as [E1 E3].
+    apply negb_false_iff in E1. apply negb_false_iff in E3.
+    cbn [batch]. rewrite E1, E3. apply IH. reflexivity.
+Qed.
+(* run_timeseries records every requested variable instead of failing on it (writer part) *)
+Lemma writer_total dc ft l : records_all dc ft l.
+Proof.
+  unfold records_all, writer. destruct (eligible dc ft l) as [b|] eqn:E; [|exact I].
+  rewrite (eligible_batch_ok _ _ _ _ E). destruct b; exact I.
 Qed.
